@@ -83,7 +83,8 @@ func (kgdb *KVInterfaceGDB) GetVertexIndexList() <-chan *gripql.IndexID {
 		fields := kgdb.kvg.idx.ListFields()
 		for _, f := range fields {
 			t := strings.Split(f, ".")
-			if len(t) > 3 {
+			//only the fields of this graph: the registry holds those of every graph
+			if len(t) > 3 && t[0] == kgdb.graph {
 				out <- &gripql.IndexID{Graph: kgdb.graph, Label: t[2], Field: t[3]}
 			}
 		}
